@@ -255,7 +255,7 @@ Section Run.
     intros s n p g v [->|[-> ->]]; [destruct p|]; simpl; try (fin; fail).
     - unfold defined. destruct (assoc n (s_od s)) as [w|] eqn:E; [destruct (Z.eqb w VUndef)|]; fin.
       rewrite E. fin.
-    - destruct (accepts k v); fin.
+    - destruct (Z.eqb v VUndef); [|destruct (validate k v)]; fin.
   Qed.
 
   Lemma delattr_ok : forall s n p g, rel g p ->
@@ -283,6 +283,7 @@ Section Run.
     repeat match goal with
            | |- context [match assoc n (s_od s) with _ => _ end] => destruct (assoc n (s_od s)) eqn:?; simpl
            | |- context [if ?b then _ else _] => destruct b eqn:?; simpl
+           | |- context [match validate ?k ?v with _ => _ end] => destruct (validate k v) eqn:?; simpl
            end.
 
   Lemma handler_keeps : forall o s p, is_access o = true ->
@@ -311,6 +312,7 @@ Section Run.
       repeat match goal with
              | |- context [match assoc n (s_od s) with _ => _ end] => destruct (assoc n (s_od s)) eqn:?; simpl
              | |- context [if ?b then _ else _] => destruct b eqn:?; simpl
+             | |- context [match validate ?k ?v with _ => _ end] => destruct (validate k v) eqn:?; simpl
              end; intros Hs; try (eapply Hold; eauto; fail);
       rewrite ?assoc_adel, ?name_eqb_refl in Hs; try discriminate; eauto.
   Qed.
@@ -830,7 +832,7 @@ Section Clauses.
     - assert (H : forall s1 p, o_stored (snd (setattr s1 n p v)) = assoc n (s_od (fst (setattr s1 n p v)))).
       { intros s1 p. destruct p; simpl; auto.
         - destruct (assoc n (s_od s1)) as [w|]; [destruct (Z.eqb w VUndef)|]; reflexivity.
-        - destruct (accepts k v); reflexivity. }
+        - destruct (Z.eqb v VUndef); [|destruct (validate k v)]; reflexivity. }
       destruct (assoc n (s_itd s)); [apply H|]. destruct (assoc n (s_ctd s)); [apply H|].
       destruct (dunder n); [apply H|]. destruct (first_match n pt) as [[q p]|]; [apply H|reflexivity].
     - assert (H : forall s1 p, o_stored (snd (delattr s1 n p)) = assoc n (s_od (fst (delattr s1 n p)))).
@@ -858,7 +860,7 @@ Section Clauses.
     - assert (H : forall s1 p, s_itd (fst (setattr s1 n p v)) = s_itd s1).
       { intros s1 p. destruct p; simpl; auto.
         - destruct (assoc n (s_od s1)) as [w|]; [destruct (Z.eqb w VUndef)|]; reflexivity.
-        - destruct (accepts k v); reflexivity. }
+        - destruct (Z.eqb v VUndef); [|destruct (validate k v)]; reflexivity. }
       destruct (assoc n (s_itd s)) eqn:E; [apply H|]. destruct (assoc n (s_ctd s)); [apply H|].
       destruct (dunder n); [rewrite H; reflexivity|].
       destruct (first_match n pt) as [[q p]|]; [rewrite H; reflexivity|reflexivity].
@@ -971,6 +973,29 @@ Section Clauses.
     pose proof (step_demand s1 _ (OGet n) HI1 eq_refl) as (G1 & G2 & _). simpl op_name in *.
     rewrite B in G1, G2. unfold s1 in G1, G2. rewrite gov_access_stable in G1, G2 by reflexivity.
     destruct Hg as [Hg|[Hg|Hg]]; rewrite Hg in G1, G2; simpl in G1, G2; auto using class_val.
+  Qed.
+
+  (* --- typed traits: the trait's own validator decides, for every validator --- *)
+  Lemma typed_validates : forall s ls n k d v, Inv s ls -> gov s n = RPol (PTyped k d) -> v <> VUndef ->
+    let s1 := fst (step pt s (OSet n v)) in
+    match validate k v with
+    | Some w => o_out (snd (step pt s (OSet n v))) = Done /\ o_out (snd (step pt s1 (OGet n))) = Val w
+    | None => o_out (snd (step pt s (OSet n v))) = Raise TraitError /\ assoc n (s_od s1) = assoc n (s_od s)
+    end.
+  Proof.
+    intros s ls n k d v HI Hg Hv s1.
+    pose proof (step_demand s ls (OSet n v) HI eq_refl) as (S1 & _ & S3). simpl op_name in *.
+    rewrite Hg in S1, S3. cbn [demand] in S1, S3.
+    assert (E : Z.eqb v VUndef = false) by (apply Z.eqb_neq; exact Hv). rewrite E in S1, S3.
+    destruct (validate k v) as [w|]; cbn [fst snd] in S1, S3.
+    - apply class_done in S1. apply stored_some in S3. rewrite (step_stored_set s n v) in S3. fold s1 in S3.
+      split; auto.
+      destruct (step_ok ct0 pt s ls (OSet n v) HI eq_refl) as [_ HI1]. fold s1 in HI1.
+      pose proof (step_demand s1 _ (OGet n) HI1 eq_refl) as (G1 & G2 & _). simpl op_name in *.
+      rewrite S3 in G1, G2. unfold s1 in G1, G2. rewrite gov_access_stable in G1, G2 by reflexivity.
+      rewrite Hg in G1, G2. cbn [demand fst snd] in G1, G2. auto using class_val.
+    - split; [auto using class_raise|]. apply stored_some in S3.
+      rewrite (step_stored_set s n v) in S3. exact S3.
   Qed.
 
   (* --- remove_trait_restores_class_rule --- *)
@@ -1103,5 +1128,180 @@ Lemma late_class_refutes : exists h1 k pre h2 c ops,
 Proof.
   exists [mkClass [([97; 95], PTyped VInt 7)] [0%nat]], 3%nat, [OSet n_ab 1],
          [mkClass [([97; 95], PTyped VStr 102)] [3%nat]], 4%nat, [OSet n_ab 101].
+  vm_compute. split; [reflexivity|discriminate].
+Qed.
+
+(* ------------------------------------------------------------------ *)
+(* Part 7: the MRO reading of "inherited" *)
+
+Lemma law_tag_nil : forall mr sr h i ls, law_tag mr sr i ls h = [] <-> law_hist mr i ls h = [].
+Proof.
+  intros mr sr. induction h as [|[o ob] r IH]; intros i ls; simpl; [tauto|].
+  destruct (law_step mr ls o ob) as [|z l] eqn:E; simpl.
+  - apply IH.
+  - split; intro H; exfalso.
+    + destruct (rule_eqb (mr (op_name o)) (sr (op_name o))); simpl in H; discriminate.
+    + discriminate.
+Qed.
+
+Lemma best_ext : forall n l l', tab_eq l l' -> wild (best n l) = wild (best n l').
+Proof.
+  intros n l l' He.
+  destruct (best n l) as [[q p]|] eqn:E1; destruct (best n l') as [[q' p']|] eqn:E2; simpl; auto.
+  - pose proof (Best_ext _ _ _ _ _ He (best_Best _ _ _ _ E1)) as B1.
+    pose proof (best_Best _ _ _ _ E2) as B2. destruct (Best_unique _ _ _ _ _ _ B1 B2). congruence.
+  - exfalso. pose proof (best_Best _ _ _ _ E1) as (A & B & _). rewrite He in A.
+    pose proof (best_spec n l') as S. rewrite E2 in S. rewrite (S _ _ (assoc_In _ _ _ A)) in B. discriminate.
+  - exfalso. pose proof (best_Best _ _ _ _ E2) as (A & B & _). rewrite <- He in A.
+    pose proof (best_spec n l) as S. rewrite E1 in S. rewrite (S _ _ (assoc_In _ _ _ A)) in B. discriminate.
+Qed.
+
+Lemma class_rule_ext : forall (v w : ctab * ptab) n,
+  tab_eq (fst v) (fst w) -> tab_eq (snd v) (snd w) -> class_rule v n = class_rule w n.
+Proof.
+  intros v w n H1 H2. unfold class_rule. rewrite (H1 n). destruct (assoc n (fst w)); auto.
+  destruct (dunder n); auto. pose proof (best_ext n _ _ H2) as E. unfold wild in E.
+  destruct (best n (snd v)) as [[? ?]|]; destruct (best n (snd w)) as [[? ?]|]; auto.
+Qed.
+
+(* closing a wildcard list with the default entry *)
+Definition close (l : ptab) : ptab := if amem [] l then l else l ++ [([], PPython)].
+
+Lemma assoc_close : forall l n,
+  assoc n (close l) = match assoc n l with Some v => Some v | None => assoc n [([], PPython)] end.
+Proof.
+  intros l n. unfold close, amem. destruct (assoc [] l) eqn:E.
+  - destruct (assoc n l) eqn:En; auto. simpl. destruct n; simpl; auto. congruence.
+  - rewrite assoc_app. reflexivity.
+Qed.
+
+Definition own_of (h : list classdef) (i : nat) : ctab * ptab := own_tables (c_decls (nth i h (mkClass [] []))).
+Definition single (h : list classdef) : bool := forallb (fun cd => Nat.leb (length (c_bases cd)) 1) h.
+
+Lemma mro_vis_unfold : forall h c,
+  mro_vis h c = (flat_map (fun i => fst (own_of h i)) (nth c (mros h) []),
+                 close (flat_map (fun i => snd (own_of h i)) (nth c (mros h) []))).
+Proof. reflexivity. Qed.
+
+(* invariant of the sequential creation of single-inheritance classes *)
+Definition SI (done : list classdef) (V : list (ctab * ptab)) (M : list (list nat)) : Prop :=
+  length V = length done /\ length M = length done /\
+  forall c, (c < length done)%nat ->
+    Forall (fun i => (i < length done)%nat) (nth c M []) /\
+    tab_eq (fst (vis_nth V c)) (flat_map (fun i => fst (own_of done i)) (nth c M [])) /\
+    tab_eq (snd (vis_nth V c)) (close (flat_map (fun i => snd (own_of done i)) (nth c M []))).
+
+Lemma flat_map_own_ext : forall (f g : nat -> list (name * policy)) m,
+  Forall (fun i => f i = g i) m -> flat_map f m = flat_map g m.
+Proof. induction m as [|i r IH]; intro H; simpl; auto. inversion H; subst. rewrite H2, IH; auto. Qed.
+
+Lemma own_of_snoc : forall done cd i, (i < length done)%nat -> own_of (done ++ [cd]) i = own_of done i.
+Proof. intros. unfold own_of. rewrite app_nth1; auto. Qed.
+Lemma own_of_last : forall done cd, own_of (done ++ [cd]) (length done) = own_tables (c_decls cd).
+Proof. intros. unfold own_of. rewrite app_nth2, Nat.sub_diag; auto. Qed.
+
+Lemma SI_snoc : forall done V M cd, SI done V M -> (length (c_bases cd) <= 1)%nat ->
+  SI (done ++ [cd]) (V ++ [vis_class V cd]) (M ++ [mro_class M (length M) cd]).
+Proof.
+  intros done V M cd (LV & LM & H) Hb.
+  split; [rewrite !app_length; simpl; lia|]. split; [rewrite !app_length; simpl; lia|].
+  intros c Hc. rewrite app_length in Hc. simpl in Hc. unfold vis_nth.
+  destruct (Nat.lt_ge_cases c (length done)) as [Hlt|Hge].
+  - (* an earlier class: nothing changes *)
+    rewrite !app_nth1 by lia. destruct (H c Hlt) as (F & A & B).
+    assert (F' : Forall (fun i => (i < length (done ++ [cd]))%nat) (nth c M [])).
+    { rewrite Forall_forall in *. intros i Hi. rewrite app_length. specialize (F i Hi). simpl. lia. }
+    split; [exact F'|].
+    rewrite (flat_map_own_ext (fun i => fst (own_of (done ++ [cd]) i)) (fun i => fst (own_of done i))),
+            (flat_map_own_ext (fun i => snd (own_of (done ++ [cd]) i)) (fun i => snd (own_of done i))).
+    + split; assumption.
+    + rewrite Forall_forall in *. intros i Hi. rewrite own_of_snoc; auto.
+    + rewrite Forall_forall in *. intros i Hi. rewrite own_of_snoc; auto.
+  - (* the new class *)
+    assert (c = length done) by lia. subst c.
+    rewrite !app_nth2 by lia. rewrite LV, LM, !Nat.sub_diag. simpl nth.
+    unfold mro_class, vis_class.
+    destruct (c_bases cd) as [|b [|b2 r]] eqn:Eb; simpl in Hb; try lia; simpl flat_map.
+    + (* no base *)
+      rewrite !app_nil_r, own_of_last. rewrite app_length. simpl.
+      split; [repeat constructor; lia|]. split; intro n; reflexivity.
+    + (* one base *)
+      rewrite !app_nil_r, own_of_last.
+      destruct (Nat.lt_ge_cases b (length done)) as [Hbl|Hbg].
+      * destruct (H b Hbl) as (F & A & B). fold (vis_nth V b). cbn [fst snd].
+        assert (Eo1 : flat_map (fun i => fst (own_of (done ++ [cd]) i)) (nth b M []) =
+                      flat_map (fun i => fst (own_of done i)) (nth b M []))
+          by (apply flat_map_own_ext; rewrite Forall_forall in *; intros i Hi; rewrite own_of_snoc; auto).
+        assert (Eo2 : flat_map (fun i => snd (own_of (done ++ [cd]) i)) (nth b M []) =
+                      flat_map (fun i => snd (own_of done i)) (nth b M []))
+          by (apply flat_map_own_ext; rewrite Forall_forall in *; intros i Hi; rewrite own_of_snoc; auto).
+        rewrite Eo1, Eo2. split; [|split].
+        -- constructor; [rewrite app_length; simpl; lia|].
+           rewrite Forall_forall in *. intros i Hi. rewrite app_length. specialize (F i Hi). simpl. lia.
+        -- intro n. rewrite !assoc_app, (A n). reflexivity.
+        -- intro n.
+           etransitivity; [exact (assoc_close (snd (own_tables (c_decls cd)) ++ snd (vis_nth V b)) n)|].
+           rewrite assoc_close, !assoc_app, (B n), assoc_close.
+           destruct (assoc n (snd (own_tables (c_decls cd)))); auto.
+           destruct (assoc n (flat_map (fun i => snd (own_of done i)) (nth b M []))); auto.
+           simpl. destruct n; auto.
+      * (* dangling base index: an empty class *)
+        unfold vis_nth. rewrite (nth_overflow V) by lia. rewrite (nth_overflow M) by lia. simpl. rewrite !app_nil_r.
+        split; [repeat constructor; rewrite app_length; simpl; lia|]. split; intro n; reflexivity.
+Qed.
+
+Lemma SI_from : forall rest done V M, SI done V M -> single rest = true ->
+  SI (done ++ rest) (visible_from V rest) (mros_from M rest).
+Proof.
+  induction rest as [|cd r IH]; intros done V M H Hs; simpl.
+  - rewrite app_nil_r. exact H.
+  - simpl in Hs. apply andb_true_iff in Hs. destruct Hs as [H1 H2]. apply Nat.leb_le in H1.
+    replace (done ++ cd :: r) with ((done ++ [cd]) ++ r) by (rewrite <- app_assoc; reflexivity).
+    apply IH; auto. apply SI_snoc; auto.
+Qed.
+
+(* in single-inheritance hierarchies the MRO reading and the code's base-order reading coincide *)
+Lemma mro_rule_single : forall h c n, single h = true -> (c < length h)%nat ->
+  class_rule (mro_vis h c) n = class_rule (vis_nth (visible h) c) n.
+Proof.
+  intros h c n Hs Hc.
+  assert (S0 : SI [] [] []) by (split; [reflexivity|split; [reflexivity|intros c0 Hc0; simpl in Hc0; lia]]).
+  pose proof (SI_from h [] [] [] S0 Hs) as (_ & _ & H). simpl in H.
+  destruct (H c Hc) as (_ & A & B).
+  rewrite mro_vis_unfold. apply class_rule_ext; simpl; intro k; symmetry; [apply A|apply B].
+Qed.
+
+Lemma single_roots_app : forall h, single h = true -> single (roots ++ h) = true.
+Proof. intros h H. unfold single in *. rewrite forallb_app, H. reflexivity. Qed.
+
+Lemma mro_spec_single : forall h c n, single h = true -> (c < length (roots ++ h))%nat ->
+  mro_rule h c n = spec_rule h c n.
+Proof. intros. unfold mro_rule, spec_rule. apply mro_rule_single; auto using single_roots_app. Qed.
+
+(* main theorem under the MRO reading: wherever the two readings agree (in particular for
+   every single-inheritance hierarchy) the law holds on every clean history *)
+Lemma law_all_histories_mro : forall h c ops i,
+  (forall n, mro_rule h c n = spec_rule h c n) ->
+  clean_run (snd (class_tables h c)) (init_state (fst (class_tables h c))) ops = true ->
+  law_hist (mro_rule h c) i l_init
+           (run (snd (class_tables h c)) (init_state (fst (class_tables h c))) ops) = [].
+Proof.
+  intros h c ops i He Hc. rewrite (law_hist_ext _ _ He). apply law_all_histories. exact Hc.
+Qed.
+
+Lemma law_single_inheritance : forall h c ops i,
+  single h = true -> (c < length (roots ++ h))%nat ->
+  clean_run (snd (class_tables h c)) (init_state (fst (class_tables h c))) ops = true ->
+  law_hist (mro_rule h c) i l_init
+           (run (snd (class_tables h c)) (init_state (fst (class_tables h c))) ops) = [].
+Proof. intros. apply law_all_histories_mro; auto. intro n. apply mro_spec_single; auto. Qed.
+
+(* the third listed finding: class A(HasTraits): pass; class K(A, HasStrictTraits): pass; K().ab = 5 *)
+Lemma mro_refutes : exists h c ops,
+  clean_run (snd (class_tables h c)) (init_state (fst (class_tables h c))) ops = true /\
+  law_hist (mro_rule h c) 0 l_init
+           (run (snd (class_tables h c)) (init_state (fst (class_tables h c))) ops) <> [].
+Proof.
+  exists [mkClass [] [0%nat]; mkClass [] [3%nat; 1%nat]], 4%nat, [OSet n_ab 5].
   vm_compute. split; [reflexivity|discriminate].
 Qed.
